@@ -1,4 +1,5 @@
 import LlirProofs.ResolveLemmas
+import LlirModel.Generated.Facts
 /-! # C05 — Undefined or doubly defined names are reported as errors (property theorems only) -/
 namespace Llir.Props.C05
 open Llir Llir.Resolve
@@ -41,6 +42,11 @@ theorem undefined_block_is_error (ents order : List Ent) (e : Ent) (he : e ∈ o
     have h := (translate_isOk_iff ents order).mp hok
     have := entErr_none_blocks ents e (h.2 e he) b hb
     rw [hbad] at this; cases this
+
+/-- No error is lost on the way: inside every loop of the translator (package asm) an assignment to `err` is checked
+    immediately (`if err != nil { return … }`), so an error raised for one element of a list (a struct field, a tuple
+    field, an operand …) cannot be overwritten by the next element. REGENERATED from the source on every run (go/ast). -/
+theorem errors_are_not_overwritten : Generated.Facts.errOverwrites = [] := by decide
 
 /-- a doubly defined type (previous definition not opaque), comdat, global entity or metadata ID is an error -/
 theorem duplicate_definition_is_error (ents order : List Ent) (h : (dupErr ents).isSome = true) :
